@@ -8,7 +8,7 @@
    * the harness-facing checkers.
    Definitions only. *)
 From Sophia.Common Require Import Prelude.
-From Sophia.gen Require Export RegexSrc.
+From Sophia.gen Require Export RegexSrc IriWiring.
 From Sophia.C09 Require Import Regex Rfc3987 Resolve.
 
 (* ---------- the validators of iri/src/_regex.rs ---------- *)
@@ -94,11 +94,10 @@ Definition resolve_gen (check : bool) (base ref : str) : option str :=
   end.
 
 (* BaseIri::resolve / Iri::resolve on a typed (already validated) reference, iri/src/resolve.rs.
-   FIXED code (build/proposed/C09-resolve.diff): Resolvable::KNOWN_VALID selects resolve_unchecked, so
-   there is no Result to unwrap.  None would be a panic. *)
-Definition resolve_impl (base ref : str) : option str := resolve_gen false base ref.
-(* PRE-FIX code: oxiri's checked resolve, whose Err is unwrapped by Resolvable::output_abs *)
-Definition resolve_impl_prefix (base ref : str) : option str := resolve_gen true base ref.
+   Which of the two oxiri entry points is used is read from the source on every run
+   (gen/IriWiring.v): today the checked one, whose Err is unwrapped by Resolvable::output_abs -- None
+   is then a panic; with build/proposed/C09-resolve-optional.diff the unchecked one. *)
+Definition resolve_impl (base ref : str) : option str := resolve_gen typed_resolve_is_checked base ref.
 
 (* validation: the model (regenerated regexes) against the implementation's four verdicts, the
    hand-written grammar against the Rust oracle's two verdicts, and Namespace::new(ns).get(suffix)
